@@ -602,3 +602,27 @@ Proof.
   destruct (C2 c Hr) as [H|H]; [exact H|].
   destruct (C1 c H) as [Hc|Hp]; [exact Hc|lia].
 Qed.
+
+(* ------------------------------------------------------------------ a scheduled replacement is never lost *)
+Definition B11 (s : state) : Prop :=
+  replacing s = true -> shut s = false ->
+  (length (queue s) + length (connecting s) + length (assigning s) + length (finishing s) = 1)%nat.
+
+Lemma B11_step s o : B1 s -> B11 s -> B11 (fst (step s o)).
+Proof.
+  unfold B1, B11. intros H1 H11.
+  destruct (replacing s) eqn:ER; destruct (shut s) eqn:ES; destruct o; simpl; rewrite ?ER, ?ES; split_step; simpl in *;
+    try contra; eqs; repeat (rewrite ?length_upd, ?app_length in *; simpl in * ); intros; try discriminate; try congruence; try lia.
+  all: try (specialize (H11 eq_refl eq_refl); lia).
+Qed.
+
+Definition Inv2 (s : state) : Prop := Inv s /\ B11 s.
+
+Lemma Inv2_reach w mx th ops : 0 <= mx -> Inv2 (run (init w mx th) ops).
+Proof.
+  intros H. assert (Hi : Inv2 (init w mx th)).
+  { split; [apply Inv_init, H|]. unfold B11, init; simpl. discriminate. }
+  revert Hi. generalize (init w mx th). unfold run. induction ops as [|o r IH]; intros s Hs; simpl; [exact Hs|].
+  apply IH. destruct Hs as [Hi H11]. split; [apply Inv_step, Hi|].
+  apply B11_step; [|exact H11]. destruct Hi as [_ (B&_)]. exact B.
+Qed.
